@@ -317,6 +317,7 @@ PROPS["C17"] = dict(
 PROPS["C19"] = dict(
     gen=cases.gen_C19,
     line_mask=cases.line_mask_C19,
+    config_tol=cases.config_tol_C19,
     cross=cases.cross_C19,
     float_value_eq=True,
     mask={"cat", "time", "unit", "float"},
@@ -328,7 +329,11 @@ PROPS["C19"] = dict(
          "settables, terminals and every device and wrapper) run by the harness rebuilt from /repo under each configuration; every trace "
          "is compared with the model run with the matching `chk` (floats as VALUES), and the traces are compared with each other: equal "
          "values and timestamps for well-dimensioned lines, no dimension panic / unit rejection in unchecked builds. Lines whose value "
-         "depends on powf (EWMA, exponent stream) are exempt from value comparison as the property itself exempts them. quick: "
+         "depends on powf (EWMA, exponent stream) are compared with a bound instead of bit-for-bit under libm (1e-4 relative + 1e-4 absolute; observed <= 3e-6) and not "
+         "compared at all under micromath (its powf is a coarse approximation: O(1) relative differences observed, and it panics on an "
+         "internal integer overflow for base -0.0 in debug builds — third-party behaviour), as the property itself exempts the power "
+         "function there; the exact corner "
+         "cases of powf (0^0, 0^-1, 1^y, x^0) and the hand-written PartialEq / manual abs on special and near-equal values are included. quick: "
          "std+chk, std unchecked, alloc+libm unchecked; thorough: all six of {std, alloc+libm, alloc+micromath} x {checked, unchecked}",
     trusted_base=COMMON_TB + ["rustc's cfg resolution selects the bodies the model assumes for each configuration: exactly what the "
                               "multi-configuration correspondence tests (not proved)"],
